@@ -278,6 +278,10 @@ def check(ctx, form, sig, fmt="dict", sample=False):
         ctx.ctr("rejected")
         if not o.exc_is_pyxform:
             ctx.ctr("internal_exception_seen(C17's business)")
+        elif "not allowed in XML" in (o.exc_msg or ""):
+            # every character of the hostile alphabet is one that XML 1.0 allows in text: the author's text is data that must be carried
+            ctx.case(sig=f"{sig}|{fmt}|refused")
+            ctx.viol("text:refused-although-xml-allows-every-character", f"{o.brief()[:260]}", common.witness(form, fmt=fmt))
         return
     try:
         p = xf.Parsed(o.xform)
